@@ -195,6 +195,7 @@ type World struct {
 	aux     *Env // private environment used to let the real controller mint revisions
 	nat     map[natKey]*kubeapps.ControllerRevision
 	natName map[string]string // real name -> abstract
+	canon   map[int]int       // raw plan position -> position in the canonical call order of the last reconcile
 }
 
 func NewWorld() *World {
@@ -591,10 +592,33 @@ func (w *World) AbsFresh(name string, cached *apps.StatefulSet) []bool {
 func (w *World) Snapshot(name string) map[string]interface{} {
 	cs := w.cachedSet(name)
 	return map[string]interface{}{
-		"set":   w.AbsSet(name),
-		"pods":  w.AbsPods(cs, w.cachedPods()),
-		"revs":  w.AbsRevs(cs),
-		"pvcs":  w.AbsPVCs(),
-		"fresh": w.AbsFresh(name, cs),
+		"set":    w.AbsSet(name),
+		"pods":   w.AbsPods(cs, w.cachedPods()),
+		"revs":   w.AbsRevs(cs),
+		"pvcs":   w.AbsPVCs(),
+		"fresh":  w.AbsFresh(name, cs),
+		"apods":  w.AbsApiPods(),
+		"apvcs":  w.AbsApiPVCs(),
+		"faults": w.AbsFaults(),
 	}
+}
+
+// AbsApiPods: the pods the API really holds, with the flag that decides whether a delete removes them at once.
+func (w *World) AbsApiPods() [][]interface{} {
+	out := [][]interface{}{}
+	for _, p := range w.apiPods() {
+		imm := p.Status.Phase == v1.PodFailed || p.Status.Phase == v1.PodSucceeded || p.Spec.NodeName == ""
+		out = append(out, []interface{}{p.Name, imm})
+	}
+	return out
+}
+
+func (w *World) AbsApiPVCs() []string { return w.e.api.Names(RPVC) }
+
+func (w *World) AbsFaults() [][]interface{} {
+	out := [][]interface{}{}
+	for _, f := range w.e.api.faults {
+		out = append(out, []interface{}{f.K, f.Kind, f.Applied, f.Die, f.List})
+	}
+	return out
 }
